@@ -24,7 +24,10 @@ From Saito Require Import Base Merkle Lite LiteProofs.
          generate_merkle_root c false false = generate_merkle_root b false false      (commitment, as received)
 
    It is proved below conjunct by conjunct; three conjuncts need a guard:
-     header/hash       unless Known_C18_stale b      (merkle_root field of the full block is not the root of its txs)
+     header/hash       unless Known_C18_stale b      (merkle_root field of the full block is not the root of its txs;
+                                                      such blocks were accepted by the pinned tree and are rejected
+                                                      since fix 22133df, so for chain blocks this guard is now an
+                                                      input-validity hypothesis discharged by Block::validate)
      commitment (mem)  unless Known_C18_mem b ks     (a sibling pair 2k,2k+1 omitted as a whole; or an omitted
                                                       transaction with txs_replacements > 1)
      commitment (wire) unless Known_C18_wire b ks    (anything omitted at all)
@@ -49,9 +52,11 @@ Theorem C18_header_same : forall b ks l, ~ Known_C18_stale b -> lite b ks = Ok l
   b_hdr l = b_hdr b /\ b_hash l = b_hash b.
 Proof. exact header_guarded. Qed.
 
-(* ... refuted for a block whose merkle_root field is stale (such blocks are accepted by the pinned
-   tree: Block::validate compares the root only when the field is zero): the lite block carries a
-   different merkle_root, still advertises the full block's hash, and the client computes another hash *)
+(* ... refuted for a block whose merkle_root field is stale: the lite block carries a different
+   merkle_root, still advertises the full block's hash, and the client computes another hash.
+   (Such blocks were accepted by the pinned tree — Block::validate compared the root only when the
+   field was zero — and the harness reproduced this on a chain block; since fix 22133df they are
+   rejected, generate_lite_block itself is unchanged.) *)
 Theorem C18_header_refuted :
   exists b ks l c, no_spv (b_txs b) /\ generated b /\ lite b ks = Ok l /\ receive l = Ok c /\
     b_hdr l <> b_hdr b /\ b_hash l = b_hash b /\ b_hash c <> b_hash b.
@@ -113,6 +118,35 @@ Theorem C18_root_wire_refuted :
     generate_merkle_root c false false <> generate_merkle_root b false false.
 Proof. exact root_wire_refuted. Qed.
 
+(* the classes are exact — on each of them the commitment really fails (free hash: the two roots are
+   different expressions; for the real hash: different unless they collide):
+   (1) a sibling pair omitted as a whole (no omitted transaction with several leaves) *)
+Theorem C18_root_fails_on_merge : forall b ks l,
+  no_spv (b_txs b) -> all_hashed (b_txs b) ->
+  aligned_omitted ks (b_txs b) = true -> omitted_multi ks (b_txs b) = false ->
+  lite b ks = Ok l ->
+  generate_merkle_root l false false <> generate_merkle_root b false false.
+Proof. exact root_fails_on_merge. Qed.
+
+(* (2) an omitted transaction with txs_replacements > 1 (nothing merged).  The mixed case (1)+(2)
+   together is covered by the guard of C18_root but not by an exactness theorem. *)
+Theorem C18_root_fails_on_replacements : forall b ks l,
+  no_spv (b_txs b) -> all_hashed (b_txs b) ->
+  aligned_omitted ks (b_txs b) = false -> omitted_multi ks (b_txs b) = true ->
+  lite b ks = Ok l ->
+  generate_merkle_root l false false <> generate_merkle_root b false false.
+Proof. exact root_fails_on_replacements. Qed.
+
+(* (3) after the wire trip: anything omitted, provided no signature prefix of the block happens to
+   equal a transaction hash of the block *)
+Theorem C18_root_wire_fails : forall b ks l c,
+  no_spv (b_txs b) -> generated b ->
+  (forall t u, In t (b_txs b) -> In u (b_txs b) -> t_sig32 t <> t_chash u) ->
+  Known_C18_wire b ks ->
+  lite b ks = Ok l -> receive l = Ok c ->
+  generate_merkle_root c false false <> generate_merkle_root b false false.
+Proof. exact root_fails_on_wire. Qed.
+
 (* the guards are decidable classes *)
 Theorem C18_known_decidable : forall b ks,
   ({Known_C18_mem b ks} + {~ Known_C18_mem b ks}) *
@@ -151,4 +185,7 @@ Print Assumptions C18_root_refuted.
 Print Assumptions C18_root_refuted_replacements.
 Print Assumptions C18_root_wire.
 Print Assumptions C18_root_wire_refuted.
+Print Assumptions C18_root_fails_on_merge.
+Print Assumptions C18_root_fails_on_replacements.
+Print Assumptions C18_root_wire_fails.
 Print Assumptions C18_known_decidable.
